@@ -134,17 +134,57 @@ func checkC01(c *ProgCase) *Outcome {
 	return ok(nontrivial, classes...)
 }
 
+// ---- preservation for whatever the checker accepts: programs mutated towards ill-typedness
+// (C05's catalogue). The reference checker is not consulted: if yae accepts the program with
+// type T, every value it produces must be a well-formed value of T.
+
+func checkC01Accepted(c *TypingCase) *Outcome {
+	pc := &c.ProgCase
+	src := m.Print(pc.E, pc.Print)
+	ty, _, err, p := run.InferType(src, pc.Env, pc.Extra)
+	if p != nil {
+		return skip("checker-panics(C05/C12)")
+	}
+	if err != nil || ty == nil {
+		return ok(false, "accepted-preservation:rejected")
+	}
+	produced := false
+	for _, be := range run.AllBackends {
+		en := run.NewEngine(be, pc.Extra)
+		o := en.RunSrc(src, pc.Env, pc.Vals)
+		if !o.Compiled() || o.Failed() {
+			continue
+		}
+		produced = true
+		v, probs := run.FromYaeVal(o.Val, ty)
+		if len(probs) > 0 || v == nil {
+			return bad("%s: the checker accepts the program with type %s, but the value it produces is not a well-formed value of that type: %v\n src: %s\n env: %s\n mutation: %s", be, ty, probs, src, envSummary(pc), c.Mutation)
+		}
+		if werr := v.WellTyped(); werr != nil {
+			return bad("%s: %v (inferred type %s)\n src: %s\n mutation: %s", be, werr, ty, src, c.Mutation)
+		}
+	}
+	cls := "accepted-preservation:accepted"
+	if c.Mutation != "" {
+		cls = "accepted-preservation:accepted-after-mutation"
+	}
+	return ok(produced && c.Mutation != "", cls, fmt.Sprintf("accepted-produced-value:%v", produced))
+}
+
+var c01acc = Register(&Prop[TypingCase]{ID: "C01", Name: "accepted-preservation", Gen: genTypingCase, Check: checkC01Accepted})
+
 var c01opt = gen.ProgOpt{Fuel: 4, Partial: false, Sugar: true, NonFinite: true, Maybe: true, Times: true, Harness: true}
 
 var c01 = Register(&Prop[ProgCase]{ID: "C01", Name: "preservation", Gen: genProgCase(c01opt, run.StdHarness), Check: checkC01})
 
 func TestC01(t *testing.T) {
-	R.Rule = "well-typed programs over literals, variables, lists, maps, objects, member / subscript access, overloaded and polymorphic calls; every object occurrence (literal elements, conditional arms, typing environment, run-time values) written in an independently drawn field order; four back ends; plus member / subscript paths into reflect-built Go host values (two values of one Go type in a row), whose results must be well-formed values of the type inferred against that host data; oracle: inferred type = reference type and checked walk of every produced value (tag of every component equals the declared component type, no nil component, map entries under the key their text denotes); non-trivial = a value was produced, the program has a composite result or a member/subscript access, and one object type occurs in two field orders or a polymorphic / overloaded call is present"
+	R.Rule = "well-typed programs over literals, variables, lists, maps, objects, member / subscript access, overloaded and polymorphic calls; every object occurrence (literal elements, conditional arms, typing environment, run-time values) written in an independently drawn field order; four back ends; plus member / subscript paths into reflect-built Go host values (two values of one Go type in a row), whose results must be well-formed values of the type inferred against that host data; plus programs mutated towards ill-typedness (C05's catalogue, user overloads): whenever yae's own checker accepts one with type T (the reference is not consulted), every value produced must be a well-formed value of T; oracle: inferred type = reference type and checked walk of every produced value (tag of every component equals the declared component type, no nil component, map entries under the key their text denotes); non-trivial = a value was produced, the program has a composite result or a member/subscript access, and one object type occurs in two field orders or a polymorphic / overloaded call is present"
 	R.Assume = []string{"ref.Check encodes the typing rules of C05's statement"}
 	reportKnown(t, "C01")
 	runRegress(t, "C01")
 	c01.Run(t, budget(6000, 320000))
 	c01host.Run(t, budget(2500, 160000))
+	c01acc.Run(t, budget(3000, 160000))
 }
 
 // ---- preservation over host data: values supplied by Go structs / slices / maps
